@@ -1,7 +1,7 @@
 (* C02: unique_bincount renumbering and the mesh pipeline of M_slicing.v (any NumOps instance; stated on ROps). *)
 From Coq Require Import ZArith Reals Lra List Bool Lia Arith Sorted.
 From PW Require Import Num NumR Vec NpList Result.
-From PW.model Require Import M_slicing.
+From PW.model Require Import M_slicing M_slicing_spec.
 From PW.proofs Require Import P_nplist P_slicing.
 Import ListNotations.
 
@@ -246,7 +246,6 @@ Proof.
   revert l'. induction l as [|x l IH]; intros [|y l']; cbn [zip In]; try tauto.
   intros [[= <- <-]|H]; [auto|]. destruct (IH _ H). auto.
 Qed.
-Definition face_valid (nv : nat) (f : face) : Prop := fget f 0 < nv /\ fget f 1 < nv /\ fget f 2 < nv.
 Lemma lookup3_some {A} (l : list A) f : face_valid (length l) f -> exists t, lookup3 l f = Some t.
 Proof.
   intros (H0 & H1 & H2). unfold lookup3.
@@ -417,4 +416,27 @@ Proof.
   - destruct (mask_of (length fs) _) as [m|e]; cbn [rbind]; [|discriminate].
     destruct (resolve vs _ _ fs m) as [fds|] eqn:Er; [|discriminate]. intros [= <-].
     apply slice_fds_wellformed. intros d Hd. eapply resolve_valid; eassumption.
+Qed.
+
+(* ---- the mask: faces_to_slice.nonzero()[0] and back ------------------------------------------------------------- *)
+Lemma existsb_nonzero_from_lt i s m : (i < s)%nat -> existsb (Nat.eqb i) (nonzero_from s m) = false.
+Proof.
+  intros H. apply not_true_is_false. intros E. apply existsb_exists in E. destruct E as (x & Hx & Ex).
+  apply Nat.eqb_eq in Ex. subst x. apply nonzero_from_lb in Hx. lia.
+Qed.
+Lemma mask_roundtrip_from (m : list bool) : forall s,
+  map (fun i => existsb (Nat.eqb i) (nonzero_from s m)) (seq s (length m)) = m.
+Proof.
+  induction m as [|b r IH]; intros s; [reflexivity|]. cbn [length seq map nonzero_from]. f_equal.
+  - destruct b; cbn [existsb]; [rewrite Nat.eqb_refl; reflexivity|]. apply existsb_nonzero_from_lt. lia.
+  - rewrite <- (IH (S s)) at 2. apply map_ext_in. intros i Hi. apply in_seq in Hi.
+    destruct b; [|reflexivity]. cbn [existsb]. replace (i =? s)%nat with false by (symmetry; apply Nat.eqb_neq; lia). reflexivity.
+Qed.
+(* a boolean mask of the right length survives the wrapper's mask -> indices -> mask translation *)
+Lemma mask_roundtrip (m : list bool) : mask_of (length m) (Some (flatnonzero m)) = Ok m.
+Proof.
+  unfold mask_of.
+  assert (H : forallb (fun i => (i <? length m)%nat) (flatnonzero m) = true).
+  { apply forallb_forall. intros i Hi. apply Nat.ltb_lt, flatnonzero_lt, Hi. }
+  rewrite H. f_equal. apply (mask_roundtrip_from m 0).
 Qed.
